@@ -28,6 +28,102 @@ def fit_k(cols, mk, k, range_type, range_x, segment, weight_cp, cp0,
     return idnt, cap.calls, p
 
 
+def one_case(run, cfg):
+    """fit the curve described by cfg with k and with 1 and compare"""
+    mk, k, segment, rtype = (cfg["model"], cfg["k"], cfg["segment"],
+                             cfg["range_type"])
+    rx, noise, weight, cp0 = (cfg["range_x"], cfg["noise"], cfg["weight_cp"],
+                              cfg["cp0"])
+    true, E0, i = cfg["true"], cfg["E0"], cfg["seed"]
+    p = fits.POWER[mk]
+    cols = fits.model_curve(mk, true, n_app=150, n_ret=70)
+    if noise:
+        amp = noise * float(np.max(np.abs(cols["force"])))
+        cols = fits.model_curve(mk, true, n_app=150, n_ret=70, noise=amp,
+                                rng=np.random.default_rng(i))
+    if True:
+        key = "cfg:" + common.sha(cfg)[:16]
+        payload = {"kind": "cfg", "cfg": cfg}
+        try:
+            args = (cols, mk)
+            kws = dict(range_type="absolute" if rtype == "plateau" else rtype,
+                       range_x=rx, segment=segment, weight_cp=weight, cp0=cp0,
+                       edelta=(rtype == "plateau"), E0=E0)
+            ik, ck, pk = fit_k(*args, k=k, **kws)
+            i1, c1, p1 = fit_k(*args, k=1.0, **kws)
+        except BaseException as e:
+            run.failing(SITE, key, f"{cfg}: raised {type(e).__name__}: {e}",
+                        payload=payload)
+            return
+        run.case(cfg, kind=f"{rtype}-{'noisy' if noise else 'clean'}")
+        fk, f1 = ik.fit_properties, i1.fit_properties
+        if not (fk.get("success") and f1.get("success")):
+            return
+
+        def fail(why, thm="C11_objective_equiv_*"):
+            run.failing(SITE, key, f"{cfg}: {why}", payload=payload,
+                        observed=why, theorem=thm)
+        # the caller's initial parameters are untouched and every pass is
+        # started from k * cp0 (stored guess in measured units)
+        if float(pk["contact_point"].value) != cp0:
+            fail("the caller's initial contact point was modified",
+                 "C10 / C11 (initial guess units)")
+        if rtype != "plateau" or True:
+            bad = [j for j, c in enumerate(ck) if c["cp_in"] != cp0 * k]
+            if bad:
+                fail(f"optimisation pass {bad[0]} of {len(ck)} was started "
+                     f"from {ck[bad[0]]['cp_in']!r}, not k*cp0 = {cp0 * k!r}",
+                     "C11 (initial guess in measured units for every pass)")
+        tol = 1e-6 if not noise else 5e-3
+        pfk, pf1 = fk["params_fitted"], f1["params_fitted"]
+        if rtype == "plateau":
+            ek = np.asarray(fk["optimal_fit_E_array"])
+            e1 = np.asarray(f1["optimal_fit_E_array"]) * k ** (-p)
+            dk = np.asarray(fk["optimal_fit_delta_array"])
+            d1 = np.asarray(f1["optimal_fit_delta_array"])
+            if dk.shape != d1.shape or not np.allclose(dk, d1, rtol=1e-12,
+                                                       atol=0):
+                fail("the scanned depths (measured units) differ between k "
+                     "and 1")
+            half = max(2, ek.size // 2)      # deep, well-conditioned half
+            if not noise and np.max(np.abs(ek[:half] / e1[:half] - 1)) \
+                    > 10 * tol:
+                fail("E(delta) scan of the k-fit is not the k=1 scan times "
+                     "k^-p (deep half of the scan)")
+            if fk["optimal_fit_delta"] != f1["optimal_fit_delta"]:
+                # the (discontinuous) plateau selection picked another
+                # plateau although the scans agree: not a scaling error
+                run.count("plateau-selection-flip")
+                return
+        Ek, E1 = pfk["E"].value, pf1["E"].value
+        rel = abs(Ek / (E1 * k ** (-p)) - 1)
+        span = float(np.ptp(cols["tip position"]))
+        if rel > tol:
+            fail(f"E_k / (E_1 k^-p) - 1 = {rel:.3e}")
+        if abs(pfk["contact_point"].value - pf1["contact_point"].value) \
+                > tol * span:
+            fail("reported contact point differs between k and 1")
+        fmax = float(np.max(np.abs(cols["force"])))
+        if abs(pfk["baseline"].value - pf1["baseline"].value) > tol * fmax:
+            fail("reported baseline differs between k and 1")
+        a, b = np.asarray(ik["fit"]), np.asarray(i1["fit"])
+        m = ~np.isnan(a) & ~np.isnan(b)
+        if not np.array_equal(np.isnan(a), np.isnan(b)) or \
+                np.max(np.abs(a[m] - b[m])) > 10 * tol * fmax:
+            fail("fitted curve differs between k and 1 (NaN pattern equal: "
+                 f"{np.array_equal(np.isnan(a), np.isnan(b))}, max diff "
+                 f"{np.max(np.abs(a[m] - b[m])) if m.any() else None}, "
+                 f"fmax {fmax})")
+        if rtype == "absolute":
+            if not (math.isclose(fk["xmin"], f1["xmin"], rel_tol=1e-15,
+                                 abs_tol=0)
+                    and math.isclose(fk["xmax"], f1["xmax"], rel_tol=1e-15,
+                                     abs_tol=0)):
+                fail("xmin/xmax differ between k and 1", "C11_unscale")
+            if not np.array_equal(ck[0]["x"], c1[0]["x"] * k):
+                fail("the optimiser was not given k * abscissa")
+
+
 def check(run):
     run.sources = common.source_digests(["src/nanite/fit.py"])
     try:
@@ -59,7 +155,9 @@ def check(run):
         p = fits.POWER[mk]
         k = rng.choice([0.1, 0.23, 0.5, 0.3183098861837907, 0.6, 2.0, 1.5])
         segment = rng.choice([0, 0, 1])
-        rtype = rng.choice(["absolute", "absolute", "relative cp", "plateau"])
+        # deterministic cycle: every (model, range type) pair is covered
+        rng.choice([0, 1])
+        rtype = ["absolute", "relative cp", "plateau", "absolute"][(i // 3) % 4]
         if rtype == "plateau":
             # the plateau search refuses retract segments unconditionally
             # ("Unexpected trend in retract curve!"): approach only
@@ -78,11 +176,6 @@ def check(run):
         E_true = 10 ** rng.uniform(2.5, 4)
         true = fits.default_params(mk, contact_point=cp_true, E=E_true,
                                    baseline=rng.uniform(-1e-10, 1e-10))
-        cols = fits.model_curve(mk, true, n_app=150, n_ret=70)
-        if noise:
-            amp = noise * float(np.max(np.abs(cols["force"])))
-            cols = fits.model_curve(mk, true, n_app=150, n_ret=70, noise=amp,
-                                    rng=np.random.default_rng(i))
         rx = {"absolute": rng.choice([[0, 0], [-1.5e-6, 2e-6]]),
               "relative cp": [-1.5e-6, 1e-6], "plateau": [0, 2e-6]}[rtype]
         cp0 = cp_true + rng.uniform(-1.5e-7, 1.5e-7)
@@ -93,82 +186,9 @@ def check(run):
             cp0 = cp_true + rng.uniform(-1e-8, 1e-8)
             E0 = E_true * rng.uniform(0.8, 1.25)
         cfg = {"model": mk, "k": k, "segment": segment, "range_type": rtype,
-               "range_x": rx, "noise": noise, "weight_cp": weight,
-               "cp0": cp0, "seed": i}
-        key = "cfg:" + common.sha(cfg)[:16]
-        payload = {"kind": "cfg", "cfg": cfg}
-        try:
-            args = (cols, mk)
-            kws = dict(range_type="absolute" if rtype == "plateau" else rtype,
-                       range_x=rx, segment=segment, weight_cp=weight, cp0=cp0,
-                       edelta=(rtype == "plateau"), E0=E0)
-            ik, ck, pk = fit_k(*args, k=k, **kws)
-            i1, c1, p1 = fit_k(*args, k=1.0, **kws)
-        except BaseException as e:
-            run.failing(SITE, key, f"{cfg}: raised {type(e).__name__}: {e}",
-                        payload=payload)
-            continue
-        run.case(cfg, kind=f"{rtype}-{'noisy' if noise else 'clean'}")
-        fk, f1 = ik.fit_properties, i1.fit_properties
-        if not (fk.get("success") and f1.get("success")):
-            continue
-
-        def fail(why, thm="C11_objective_equiv_*"):
-            run.failing(SITE, key, f"{cfg}: {why}", payload=payload,
-                        observed=why, theorem=thm)
-        # the caller's initial parameters are untouched and every pass is
-        # started from k * cp0 (stored guess in measured units)
-        if float(pk["contact_point"].value) != cp0:
-            fail("the caller's initial contact point was modified",
-                 "C10 / C11 (initial guess units)")
-        if rtype != "plateau" or True:
-            bad = [j for j, c in enumerate(ck) if c["cp_in"] != cp0 * k]
-            if bad:
-                fail(f"optimisation pass {bad[0]} of {len(ck)} was started "
-                     f"from {ck[bad[0]]['cp_in']!r}, not k*cp0 = {cp0 * k!r}",
-                     "C11 (initial guess in measured units for every pass)")
-        tol = 1e-6 if not noise else 5e-3
-        pfk, pf1 = fk["params_fitted"], f1["params_fitted"]
-        if rtype == "plateau":
-            ek = np.asarray(fk["optimal_fit_E_array"])
-            e1 = np.asarray(f1["optimal_fit_E_array"]) * k ** (-p)
-            half = max(2, ek.size // 2)      # deep, well-conditioned half
-            if not noise and np.max(np.abs(ek[:half] / e1[:half] - 1)) \
-                    > 10 * tol:
-                fail("E(delta) scan of the k-fit is not the k=1 scan times "
-                     "k^-p (deep half of the scan)")
-            if fk["optimal_fit_delta"] != f1["optimal_fit_delta"]:
-                # the (discontinuous) plateau selection picked another
-                # plateau although the scans agree: not a scaling error
-                run.count("plateau-selection-flip")
-                continue
-        Ek, E1 = pfk["E"].value, pf1["E"].value
-        rel = abs(Ek / (E1 * k ** (-p)) - 1)
-        span = float(np.ptp(cols["tip position"]))
-        if rel > tol:
-            fail(f"E_k / (E_1 k^-p) - 1 = {rel:.3e}")
-        if abs(pfk["contact_point"].value - pf1["contact_point"].value) \
-                > tol * span:
-            fail("reported contact point differs between k and 1")
-        fmax = float(np.max(np.abs(cols["force"])))
-        if abs(pfk["baseline"].value - pf1["baseline"].value) > tol * fmax:
-            fail("reported baseline differs between k and 1")
-        a, b = np.asarray(ik["fit"]), np.asarray(i1["fit"])
-        m = ~np.isnan(a) & ~np.isnan(b)
-        if not np.array_equal(np.isnan(a), np.isnan(b)) or \
-                np.max(np.abs(a[m] - b[m])) > 10 * tol * fmax:
-            fail("fitted curve differs between k and 1 (NaN pattern equal: "
-                 f"{np.array_equal(np.isnan(a), np.isnan(b))}, max diff "
-                 f"{np.max(np.abs(a[m] - b[m])) if m.any() else None}, "
-                 f"fmax {fmax})")
-        if rtype == "absolute":
-            if not (math.isclose(fk["xmin"], f1["xmin"], rel_tol=1e-15,
-                                 abs_tol=0)
-                    and math.isclose(fk["xmax"], f1["xmax"], rel_tol=1e-15,
-                                     abs_tol=0)):
-                fail("xmin/xmax differ between k and 1", "C11_unscale")
-            if not np.array_equal(ck[0]["x"], c1[0]["x"] * k):
-                fail("the optimiser was not given k * abscissa")
+               "range_x": list(rx), "noise": noise, "weight_cp": weight,
+               "cp0": cp0, "seed": i, "true": true, "E0": E0}
+        one_case(run, cfg)
     run.rule = ("metamorphic fits k vs 1 on synthetic power-law curves "
                 "(noise-free: 1e-6; noisy with weighting off: 5e-3) x three "
                 "range types x segments x initial contact points; every "
@@ -176,4 +196,23 @@ def check(run):
 
 
 def replay(rec):
-    return True
+    """re-run the k / 1 pair of a recorded configuration"""
+    pl = rec.get("payload") or {}
+    cfg = pl.get("cfg")
+    if not cfg or "true" not in cfg:
+        return True
+
+    class R:
+        bad = False
+
+        def failing(self, *a, **k):
+            R.bad = True
+            return True
+
+        def case(self, *a, **k):
+            pass
+
+        def count(self, *a, **k):
+            pass
+    one_case(R(), cfg)
+    return not R.bad
